@@ -181,11 +181,47 @@ IDIOMS = {
 }
 
 
+# the EXEMPTIONS of the pattern linters (code that is not reported only because of an exemption rule): an edit that breaks the
+# exemption makes a finding appear, so these must be in the pool as well as the violating idioms
+EXEMPT_IDIOMS = {
+    "py": [
+        "class Builder{n}:\n    def with_name(self, name):\n        self.name = name\n        self.items = load(name)\n        notify(name)\n        return self",
+        "class Box{n}:\n    def __init__(self, w):\n        self._w = w\n\n    @property\n    def width(self):\n        return self._w\n\n    def get_items(self, kind):\n        return [x for x in self._w if x == kind]\n\n    def _get_hidden(self):\n        return self._w",
+        "def main{n}():\n    run()\n\n\nif __name__ == \"__main__\":\n    print(\"starting\")\n    main{n}()",
+        "def test_limits{n}():\n    value = compute(4242)\n    assert value == 1717\n    print(value)",
+        "MAX_RETRIES{n} = 4242\nTIMEOUT_SECONDS{n} = 3600\n\n\ndef wait{n}(n=0):\n    for i in range(10):\n        sleep(TIMEOUT_SECONDS{n})\n    return 100",
+        "def safe_lookup{n}(table, key):\n    try:\n        return table[key]\n    except KeyError:\n        return None",
+        "def log_all{n}(rows):\n    for row in rows:\n        logger.info(\"row %s\", row)\n    logger.debug(\"done\")",
+        "class Config{n}:\n    def __init__(self):\n        self.values = {}\n\n    def load(self, path):\n        self.values = parse(path)\n\n    def get(self, key):\n        return self.values[key]",
+    ],
+    "ts": [
+        "class Builder{n} {\n  private name = \"\";\n  withName(name: string) {\n    const items = load(name);\n    this.name = name;\n    notify(items);\n    return this;\n  }\n}",
+        "class Chain{n} {\n  add(x: number) {\n    const n = compute(x);\n    save(n);\n    return this;\n  }\n  done() {\n    return true;\n  }\n}",
+        "const MAX_SIZE{n} = 4242;\nconst TIMEOUT_MS{n} = 3600;\nfunction wait{n}() {\n  return MAX_SIZE{n} + TIMEOUT_MS{n};\n}",
+        "class Box{n} {\n  constructor(private w: number) {}\n  get width() {\n    return this.w;\n  }\n  private hidden() {\n    return this.w;\n  }\n  _internal() {\n    return this.w;\n  }\n}",
+        "async function load{n}(id: number) {\n  const data = await fetchData(id);\n  return data;\n}",
+    ],
+    "js": [
+        "class Builder{n} {\n  withName(name) {\n    const items = load(name);\n    this.name = name;\n    notify(items);\n    return this;\n  }\n}",
+        "const MAX_SIZE{n} = 4242;\nfunction wait{n}() {\n  return MAX_SIZE{n};\n}",
+    ],
+    "rs": [
+        "#[cfg(test)]\nmod tests{n} {\n    use super::*;\n\n    #[test]\n    fn check_it() {\n        let v: Option<i32> = Some(1);\n        let w = v.clone();\n        assert_eq!(v.unwrap(), 4242);\n        std::fs::read_to_string(\"a\").unwrap();\n    }\n}",
+        "#[tokio::test]\nasync fn loads{n}() {\n    let text = std::fs::read_to_string(\"a.txt\").unwrap();\n    assert!(text.len() > 17);\n}",
+        "const MAX_ITEMS{n}: usize = 4242;\nstatic LIMIT{n}: i32 = 3600;\n\nfn cap{n}(n: usize) -> usize {\n    n.min(MAX_ITEMS{n})\n}",
+        "fn safe{n}(s: Option<i32>) -> i32 {\n    let v = s.unwrap_or(0);\n    let w = s.unwrap_or_default();\n    v + w\n}",
+        "async fn spawned{n}() {\n    let r = tokio::task::spawn_blocking(|| std::fs::read_to_string(\"a.txt\")).await;\n    drop(r);\n}",
+    ],
+}
+
+
 def p_idioms(r, pid):
-    lang = r.choice(["py", "py", "py", "ts", "rs"])
-    pool = IDIOMS[lang]
-    picks = r.sample(pool, min(len(pool), r.choice([2, 3, 4])))
-    head = {"py": ["import os", "import re", ""], "ts": [], "rs": []}[lang]
+    lang = r.choice(["py", "py", "ts", "ts", "js", "rs", "rs"])
+    pool = IDIOMS["ts" if lang == "js" else lang] if lang != "js" else [x for x in IDIOMS["ts"] if ": " not in x and "private" not in x]
+    ex = EXEMPT_IDIOMS[lang]
+    picks = r.sample(pool, min(len(pool), r.choice([1, 2, 3]))) + r.sample(ex, min(len(ex), r.choice([1, 2, 3])))
+    r.shuffle(picks)
+    head = {"py": ["import os", "import re", ""], "ts": [], "js": [], "rs": []}[lang]
     parts = ["\n".join(head)] if head and r.random() < 0.7 else []
     for j, sn in enumerate(picks):
         parts.append(sn.replace("{n}", str(j)))
@@ -201,7 +237,7 @@ def programs(seed: int, n_gen: int, all_docs: bool = True):
     if all_docs:
         for j, ex in enumerate(doc_examples()["examples"]):
             out.append(p_docs(rng_for(seed, "C13", "doc", j), f"doc{j}", ex))
-    weights = ["nesting"] * 3 + ["magic"] * 3 + ["dry"] * 4 + ["srp"] * 3 + ["rust"] * 3 + ["ignore"] * 3 + ["mixed"] * 4 + ["idioms"] * 4
+    weights = ["nesting"] * 3 + ["magic"] * 3 + ["dry"] * 4 + ["srp"] * 3 + ["rust"] * 3 + ["ignore"] * 3 + ["mixed"] * 4 + ["idioms"] * 7
     for i in range(n_gen):
         r = rng_for(seed, "C13", "prog", i)
         for _ in range(5):
